@@ -41,8 +41,43 @@ import sys
 import threading
 import time
 
-STEP_TIMEOUT = float(os.environ.get("VERIF_STEP_TIMEOUT", "8"))   # one event must be consumed within
-RUN_TIMEOUT = float(os.environ.get("VERIF_RUN_TIMEOUT", "20"))    # run()/join() must end within
+class Limits:
+    """Bounded waits.  A scripted run normally takes milliseconds (plus 1 s per
+    dead-sibling join timeout), so a run that is still going after `run` seconds
+    is reported as a hang -- an observation, never a stuck check.  Every hang
+    halves the bounds (down to the floors) and after `max_hangs` hangs in one
+    process the remaining cases of the main batch are not run at all but
+    reported as hangs (the verdict is a VIOLATION anyway)."""
+    run = float(os.environ.get("VERIF_RUN_TIMEOUT", "6"))      # run()/join() must end within
+    step = float(os.environ.get("VERIF_STEP_TIMEOUT", "3"))    # one event must be consumed within
+    run_floor, step_floor = 2.5, 1.0
+    hangs = 0
+    max_hangs = 10
+    skip_when_exhausted = True
+
+    @classmethod
+    def note_hang(cls):
+        cls.hangs += 1
+        cls.run = max(cls.run_floor, cls.run / 2)
+        cls.step = max(cls.step_floor, cls.step / 2)
+
+    @classmethod
+    def exhausted(cls):
+        return cls.skip_when_exhausted and cls.hangs >= cls.max_hangs
+
+
+class ShrinkBudget:
+    """plug-ins call .ok() from shrink_candidates: shrinking a hanging case costs
+    seconds per candidate, so it gets a wall-clock budget"""
+
+    def __init__(self, seconds=90.0):
+        self.seconds, self.t0 = seconds, None
+
+    def ok(self):
+        Limits.skip_when_exhausted = False
+        if self.t0 is None:
+            self.t0 = time.time()
+        return time.time() - self.t0 < self.seconds
 
 
 class HarnessAbort(BaseException):
@@ -218,7 +253,7 @@ class Env:
     # ---- gates called by the code under test ------------------------------
     def read_proc(self, who):
         with self.cv:
-            deadline = time.time() + RUN_TIMEOUT * 2
+            deadline = time.time() + Limits.run * 2
             while True:
                 self._check_abort()
                 if who in self.exc_pending:
@@ -286,7 +321,7 @@ class Env:
     # ---- driver ------------------------------------------------------------
     def _wait(self, pred):
         """wait (cv held) until pred() or abort; False on timeout"""
-        deadline = time.time() + STEP_TIMEOUT
+        deadline = time.time() + Limits.step
         while not pred():
             if self.abort or self.run_done:
                 return True
@@ -332,7 +367,7 @@ class Env:
                     if self.exited is None:
                         self.exited = ev[1]
                     self.cv.notify_all()
-                    ok = self._wait(lambda: self.exit_observed or self.left_wait)
+                    ok = self._wait(lambda: self.left_wait)
                     self.consumed.append(idx)
                 elif kind == "timer":
                     t = self.timer
@@ -343,7 +378,7 @@ class Env:
                         finally:
                             self.cv.acquire()
                         self.cv.notify_all()
-                        ok = self._wait(lambda: self.exit_observed or self.left_wait)
+                        ok = self._wait(lambda: self.left_wait)
                     self.consumed.append(idx)
                 elif kind in ("exc", "werr"):
                     who = ev[1]
@@ -492,6 +527,13 @@ def run_scripted(case):
     from invoke import Context, Config
     from invoke.exceptions import Failure, ThreadException
     cls = runner_class()
+    if Limits.exhausted():
+        return {"hang": True, "hang_what": "not run: %d earlier runs in this process hung" % Limits.hangs,
+                "not_run": True, "elapsed": 0.0, "kills": 0, "kills_after_exit": 0, "stop_calls": 0,
+                "program_finished": False, "workers": [], "alive_after": [], "timer": None,
+                "stdin_writes": [], "stdin_closes": 0, "out_stream": "", "err_stream": "",
+                "out_submits": [], "err_submits": [], "consumed": [], "exit_observed": False,
+                "started": False, "outcome": "HANG", "stdout": None, "stderr": None, "exited": None}
     env = Env(case.get("events", []), never_eof=case.get("never_eof", ()),
               reap_echild=bool(case.get("pty")) and bool(case.get("reap_echild", True)))
     overrides = {}
@@ -543,16 +585,16 @@ def run_scripted(case):
     t0 = time.time()
     try:
         t.start()
-        t.join(RUN_TIMEOUT)
+        t.join(Limits.run)
         hung = t.is_alive()
         with env.cv:
             env.run_done = True
             if hung:
-                env.hang = env.hang or "run() did not return within %.0fs" % RUN_TIMEOUT
+                env.hang = env.hang or "run() did not return within %.1fs" % Limits.run
                 env.abort = True
             env.cv.notify_all()
         if hung:
-            t.join(3)
+            t.join(1.5)
     finally:
         sys.stdout, sys.stderr = saved
     elapsed = time.time() - t0
@@ -560,6 +602,8 @@ def run_scripted(case):
     workers = dict((tg.__name__, th) for tg, th in (getattr(runner, "threads", None) or {}).items())
     alive_after = sorted(n for n, th in workers.items() if th.is_alive())
     timer = env.timer
+    if hung or env.hang:
+        Limits.note_hang()
     obs = {
         "hang": bool(hung or env.hang),
         "hang_what": env.hang,
